@@ -82,12 +82,12 @@ func stepInstancesDiv(fn string, tier string, seed int64, hist int64, scale, div
 	var out []run.Instance
 	rng := rand.New(rand.NewSource(seed + 12345))
 	// sampling rate per category in percent (quick tier)
-	rate := map[int]int{0: 1 * scale, 1: 100, 2: 12 * scale, 3: 50, 4: 25 * scale, 5: 3 * scale, 6: 10 * scale, 7: 100}
+	rate := map[int]int{0: 1 * scale, 1: 100, 2: 12 * scale, 3: 100, 4: 25 * scale, 5: 3 * scale, 6: 10 * scale, 7: 100}
 	for stm := 0; stm < 2; stm++ {
 		for _, m := range geomMoves(stm) {
 			cat := category(m, stm)
 			r := rate[cat] * 10
-			if cat != 1 && cat != 7 {
+			if cat != 1 && cat != 7 && cat != 3 {
 				r /= div
 			}
 			if tier == "thorough" {
@@ -115,7 +115,7 @@ func init() {
 			Bounds: []string{
 				"one make+undo step from an ARBITRARY valid position (all 64 cells, castling, e.p., clocks symbolic) for a concrete (side, from, to, promotion) case; nesting to any depth follows by induction because the restored state is identical",
 				"hash history: 2 arbitrary earlier entries in the case split; additionally histories of 0, 126, 127 and 128 earlier entries (around the slice capacity 128) for three moves; longer histories follow from the same step since undo pops exactly what make pushed",
-				"quick tier: every castling case, half of the double pushes and a seeded (VERIF_SEED) sample of promotion, en-passant, rook-home, king-home and ordinary geometric (from,to) cases; thorough: eight times the quick sampling rates (all castling, double-push, promotion and en-passant cases, ~10% of the ordinary ones); tier `exhaustive` runs all 3760 (side, from, to, promotion) cases (hours)",
+				"quick tier: every castling and double-push case and a seeded (VERIF_SEED) sample of promotion, en-passant, rook-home, king-home and ordinary geometric (from,to) cases; thorough: eight times the quick sampling rates (all castling, double-push, promotion and en-passant cases, ~10% of the ordinary ones); tier `exhaustive` runs all 3760 (side, from, to, promotion) cases (hours)",
 			},
 			Assumptions: []string{"validity predicate of the property (VpValid) and pseudo-legality by the mailbox FIDE specification (VpPseudoLegal)"},
 		}
@@ -134,6 +134,26 @@ func init() {
 	}
 }
 
+// doublePushInstances: fn for every double pawn push (8 files x 2 sides).
+func doublePushInstances(fn string) []run.Instance {
+	var out []run.Instance
+	for f := int64(0); f < 8; f++ {
+		out = append(out,
+			run.Instance{Pkg: "board", Func: fn, Params: map[string]int64{"stm": 0, "from": 8 + f, "to": 24 + f, "promo": 0, "hist": 2}},
+			run.Instance{Pkg: "board", Func: fn, Params: map[string]int64{"stm": 1, "from": 48 + f, "to": 32 + f, "promo": 0, "hist": 2}})
+	}
+	return out
+}
+
+// castlesInstances: the symbolic-move castling-rights obligation (no case split).
+func castlesInstances() []run.Instance {
+	var out []run.Instance
+	for stm := int64(0); stm < 2; stm++ {
+		out = append(out, run.Instance{Pkg: "board", Func: "VpH_C02_castles", Params: map[string]int64{"stm": stm}})
+	}
+	return out
+}
+
 func stepSpec(prop string) *Spec {
 	return &Spec{
 		Prop:          prop,
@@ -149,7 +169,7 @@ func init() {
 		s := stepSpec("C02")
 		s.Bounds = []string{
 			"one MakeMove step from an ARBITRARY valid position (64 symbolic cells, castling, e.p., clocks, 2 earlier history entries) for a concrete (side, from, to, promotion) case; game histories of any length follow by induction because the successor is asserted valid again",
-			"quick: all castling cases, a quarter of the double pushes, seeded sample of the other categories; thorough: eight times the quick rates; tier `exhaustive`: all 3760 cases",
+			"quick: all castling and all double-push cases, seeded sample of the other categories; thorough: eight times the quick rates; tier `exhaustive`: all 3760 cases",
 			"halfmove clock 0..127, fullmove number 1..2^31-1",
 		}
 		s.Exclusions = []string{"fifty-clock-wrap"}
@@ -157,6 +177,8 @@ func init() {
 		s.Witnesses = map[string]run.Instance{
 			"fifty-clock-wrap": {Pkg: "board", Func: "VpH_C02_step", Params: map[string]int64{"stm": 0, "from": 6, "to": 21, "promo": 0, "hist": 2}},
 		}
+		s.Instances = append(s.Instances, castlesInstances()...)
+		s.Bounds = append(s.Bounds, "castling-rights update additionally for EVERY (from, to, promotion bits) at once (symbolic move), both sides")
 		s.Pkgs = append(s.Pkgs, "uci")
 		for stm := int64(0); stm < 2; stm++ {
 			for _, n := range []int64{3, 4, 5, 6} {
